@@ -7,11 +7,11 @@
   * `measRandom_state` : the random branch of the model (other anticommuting rows are first multiplied by the
     pivot, then the pivot is replaced by `(-1)^o Z_q`) computes exactly the post-measurement state, each outcome
     with probability ½;
-  * `measDet_state` : the deterministic branch (no stabilizer anticommutes with `Z_q`), under the hypothesis that the
-    scratch row is `±Z_q` (see `Proofs/HilbertComplete.lean` for that hypothesis): the reported outcome has
-    probability 1 and the state is unchanged.
+  * `measDet_state` : the deterministic branch (no stabilizer anticommutes with `Z_q`): the scratch row is `±Z_q`
+    (`Proofs/HilbertComplete.lean`), the reported outcome has probability 1 and the state is unchanged.
 -/
 import GraphiqModel.Proofs.HilbertPure
+import GraphiqModel.Proofs.HilbertComplete
 import Mathlib.Tactic.NoncommRing
 namespace Graphiq
 namespace Hilbert
@@ -221,7 +221,7 @@ theorem inSpan_ofTab (t : Tab) (hr : t.StabReal) (a : PRow) (h : Tab.InSpan t.n 
     the Pauli bits of `Z_q` (it always lies in the stabilizer group), then with `s` = the reported outcome
     (`scratch.r`): `Z_q ρ = (-1)^s ρ`, the projector of the reported outcome fixes the state and the other projector
     annihilates it — the outcome has probability 1 and the state does not change, as the model's `zMeasure` says. -/
-theorem measDet_state (t : Tab) (hv : t.Valid) (hr : t.StabReal) (q : Nat)
+theorem measDet_state_of_bits (t : Tab) (hv : t.Valid) (hr : t.StabReal) (q : Nat)
     (hbits : SameBits t.n (t.measScratch q) (Zq q)) :
     pauliMat t.n (Zq q (t.measScratch q).r) * rho t.n (STab.ofTab t) = rho t.n (STab.ofTab t) ∧
     proj t.n (Zq q (t.measScratch q).r) * rho t.n (STab.ofTab t) * proj t.n (Zq q (t.measScratch q).r)
@@ -247,6 +247,40 @@ theorem measDet_state (t : Tab) (hv : t.Valid) (hr : t.StabReal) (q : Nat)
     pauliMat_neg t.n (Zq q (t.measScratch q).r)
   unfold proj
   rw [smul_mul_assoc, add_mul, Matrix.one_mul, hneg, Matrix.neg_mul, hfix, add_neg_cancel, smul_zero]
+
+/-- the deterministic branch without extra hypothesis: `pivot = none` on a valid tableau -/
+theorem measDet_state (t : Tab) (hv : t.Valid) (hr : t.StabReal) (q : Nat) (hq : q < t.n) (hp : t.pivot q = none) :
+    pauliMat t.n (Zq q (t.measScratch q).r) * rho t.n (STab.ofTab t) = rho t.n (STab.ofTab t) ∧
+    proj t.n (Zq q (t.measScratch q).r) * rho t.n (STab.ofTab t) * proj t.n (Zq q (t.measScratch q).r)
+      = rho t.n (STab.ofTab t) ∧
+    proj t.n (Zq q (!(t.measScratch q).r)) * rho t.n (STab.ofTab t) = 0 :=
+  measDet_state_of_bits t hv hr q (measScratch_bits t hv q hq hp)
+
+/-! ### reality of the stabilizer rows is an invariant of gates -/
+
+theorem map_stabReal (t : Tab) (f : PRow → PRow) (hf : ∀ a, (f a).ip = a.ip) (hr : t.StabReal) : (t.map f).StabReal := by
+  intro i h1 h2
+  show (f (t.row i)).ip = false
+  rw [hf]; exact hr i h1 h2
+
+theorem gate_stabReal (t : Tab) (g : Gate) (hr : t.StabReal) : (t.map g.act).StabReal :=
+  map_stabReal t _ (Gate.act_ip g) hr
+
+theorem ket0_stabReal (n : Nat) : (Tab.ket0 n).StabReal := by
+  intro i h1 _
+  have h1' : n ≤ i := h1
+  have : ¬ i < n := by omega
+  simp [Tab.ket0, this, Zq]
+
+/-- the stabilizer half of `CliffordTableau(n)` is `StabilizerTableau(n)`, i.e. the state `|0…0⟩⟨0…0|` -/
+theorem rho_ket0 (n : Nat) : rho n (STab.ofTab (Tab.ket0 n)) = rho n (STab.zero n) := by
+  apply rhoTo_congr
+  intro i hi
+  show EqOn n { (Tab.ket0 n).row (i + n) with ip := false } (Zq i)
+  have h1 : ¬ i + n < n := by omega
+  have h2 : i + n - n = i := by omega
+  simp only [Tab.ket0, h1, if_false, h2]
+  exact EqOn.refl _ _
 
 end Hilbert
 end Graphiq
